@@ -34,12 +34,13 @@ def aggr_struct(fam, t):
 def expected(fam):
     ents = {}
     for e in fam.entities:
-        attrs = [(a.name, 'explicit', 1 if a.optional else 0, type_text(a.type)) for a in e.attrs]
+        attrs = [(a.name, 'explicit', 1 if a.optional else 0, type_text(a.type)) for a in e.attrs if not a.redeclares]
         for d in e.derived:
             attrs.append((d.name, 'derived', 0, type_text(d.type)))     # a redeclared attribute given in DERIVE is a derived attribute
         ents[e.name] = {'abstract': 1 if e.abstract else 0, 'supers': list(e.supers), 'subs': sorted(fam.subtypes(e.name)), 'attrs': attrs,
                         'inverse': [(v.name, v.entity, v.attr) for v in e.inverse],
-                        'inst': [a.name for _, a, _ in fam.p21_attrs(e.name)],
+                        'inst': [a.name for _, a, _ in fam.p21_attrs(e.name)], 'inst_derived': [1 if r else 0 for _, a, r in fam.p21_attrs(e.name)],
+                        'redeclares': any(a.redeclares for a in e.attrs),
                         'struct': {a.name: aggr_struct(fam, a.type) for a in e.attrs if fam.cat(a.type) == 'AGGR'}}
     types = {}
     for t in fam.types:
@@ -102,7 +103,10 @@ def read_dict(lib, entity_names):
                 inst[en] = ('crash', e.key())
                 d.kill()
                 continue
-            inst[en] = [x.decode().split(' ')[3] for x in a if x.startswith(b'I ')]
+            # (an explicit redeclaration SELF\\sup.x : T appears as an additional 'redefining' entry that Part 21 does not write: not a parameter)
+            rows = [x for x in a if x.startswith(b'I ') and b'redef=1' not in x]
+            inst[en] = [x.decode().split(' ')[3] for x in rows]
+            inst[en + '/derived'] = [int(re.search(rb'derived=(\d)', x).group(1)) for x in rows]
     return ents, types, inst
 
 
@@ -124,6 +128,8 @@ def compare(fam, ee, te, eg, tg, inst):
             out.append(('subtypes', '%s: subtypes %s, declared %s' % (n, g['subs'], e['subs'])))
         ga = [(a[0].split('.')[-1], a[1], a[2], a[3]) for a in g['attrs']]
         ea = e['attrs']
+        if e.get('redeclares'):
+            ga = [a for a in ga if a[1] != 'redefining' and a[0] in [x[0] for x in ea]]
         if [a[0] for a in ga] != [a[0] for a in ea]:
             cls = 'order' if sorted(a[0] for a in ga) == sorted(a[0] for a in ea) else 'set'
             out.append(('attributes/%s' % cls, '%s: attributes %s, declared %s' % (n, [a[0] for a in ga], [a[0] for a in ea])))
@@ -148,6 +154,8 @@ def compare(fam, ee, te, eg, tg, inst):
             out.append(('instance-crash/%s/%s' % gi[1], 'creating an instance of %s crashes: %s' % (n, gi[1])))
         elif gi is not None and gi != e['inst']:
             out.append(('instance-attribute-order/%s' % ('order' if sorted(gi) == sorted(e['inst']) else 'set'), 'fresh %s exposes %s, Part 21 order is %s' % (n, gi, e['inst'])))
+        elif gi is not None and inst.get(n + '/derived') is not None and inst[n + '/derived'] != e['inst_derived']:
+            out.append(('instance-attribute-derived', 'fresh %s: attributes %s are marked derived %s, the schema derives %s' % (n, gi, inst[n + '/derived'], e['inst_derived'])))
     for n in sorted(set(te) - set(tg)):
         out.append(('type-missing/%s' % ('renamed' if 'ref' in te[n] and ('enum' in te[n] or 'select' in te[n]) else next(iter(te[n]), 'x')), 'type %s is not in the dictionary' % n))
     for n in sorted(set(tg) - set(te)):
@@ -247,7 +255,7 @@ def variants(fam):
 
 
 def programs(tier):
-    progs = [smodel.family_K('fam_k', pairs=[('inte', 'stri'), ('ref', 'list_int')], renamed=False), smodel.family_I('fam_i'), family_V(), family_A()]
+    progs = [smodel.family_K('fam_k', pairs=[('inte', 'stri'), ('ref', 'list_int')], renamed=False), smodel.family_I('fam_i'), family_V(), family_A(), family_R()]
     progs += family_D(4, 'fam_d4')
     # of the five-entity graphs the quick tier keeps those where an entity with several supertypes is itself a supertype, listed second or
     # later, of another entity with several supertypes (multiple inheritance through multiple inheritance)
@@ -258,6 +266,27 @@ def programs(tier):
         progs.append(smodel.family_K('fam_kr', pairs=[], renamed=True, only=['enum2', 'seldef2', 'inte']))
         progs += family_D(5, 'fam_d5')
     return progs
+
+
+def family_R():
+    S, N = smodel.Simple, smodel.Named
+    R, Nu, I = S('REAL'), S('NUMBER'), S('INTEGER')
+    A, D, E = smodel.Attr, smodel.Derived, smodel.Entity
+    return smodel.Schema('fam_r', [], [
+        E('item', [A('x', Nu), A('k', I)]),
+        # redeclares x with a specialised type, THEN declares weight; a subtype derives weight
+        E('stock_item', [A('x', R, redeclares='item'), A('weight', R), A('bin', I)], supers=['item']),
+        E('unit_item', [A('u', I)], supers=['stock_item'], derived=[D('weight', R, '1.0', redeclares='stock_item')]),
+        # control: the same without the redeclaration in between
+        E('plain_item', [A('weight', R), A('bin', I)], supers=['item']),
+        E('unit_plain_item', [A('u', I)], supers=['plain_item'], derived=[D('weight', R, '1.0', redeclares='plain_item')]),
+        # own attribute first, redeclaration second; the last own attribute derived below
+        E('late_item', [A('weight', R), A('x', R, redeclares='item'), A('bin', I)], supers=['item']),
+        E('unit_late_item', [A('u', I)], supers=['late_item'], derived=[D('bin', I, '7', redeclares='late_item')]),
+        # two levels of redeclaration
+        E('fine_item', [A('tol', R)], supers=['stock_item']),
+        E('unit_fine_item', [], supers=['fine_item'], derived=[D('tol', R, '0.5', redeclares='fine_item'), D('bin', I, '1', redeclares='stock_item')]),
+    ])
 
 
 def family_A():
@@ -350,7 +379,11 @@ def family_V():
         smodel.Entity('sub_owner', [smodel.Attr('extra', S('INTEGER'))], supers=['owner']),
         smodel.Entity('namespace', [smodel.Attr('template', N('class_t')), smodel.Attr('operator', S('INTEGER'), optional=True)]),
         smodel.Entity('data', [smodel.Attr('endsec', S('REAL'))], supers=['namespace']),
+        smodel.Entity('pipe__fitting', [smodel.Attr('bore', N('nominal__bore')), smodel.Attr('ends', N('end__kind'))]),
+        smodel.Entity('reducing__fitting', [smodel.Attr('small__bore', S('INTEGER'))], supers=['pipe__fitting']),
+        smodel.Entity('x_', [smodel.Attr('a__', S('INTEGER'))]),
     ])
+    sch.add(smodel.TypeDecl('nominal__bore', S('INTEGER')), smodel.TypeDecl('end__kind', ('enum', ['flange__end', 'weld'])))
     return sch
 
 
